@@ -311,7 +311,7 @@ PROPS = {
         kani=[],
         witness='enum:capi-list',
         design_ref='DESIGN.md section 4, C17',
-        level_text=('Proof (Verus, under extraction rule R10 which turns the pointer protocol into types) for 77 of the extern "C" functions. '
+        level_text=('Proof (Verus, under extraction rule R10 which turns the pointer protocol into types) for 80 of the extern "C" functions. '
                     'Constructors (marker, na, remove, bool, number, coord, list): the handle holds exactly the value the Rust constructor makes; the string constructors (str, ref, ref with dis, uri, symbol) hold the value built from the text of the C string and return no handle for null or invalid UTF-8 (CStr::from_ptr is proved never to be applied to null). '
                     'Kind tests (all 18 haystack_value_is_*): the Rust predicate on a live handle, false on a null one. Scalar getters (coord lat/long, '
                     'number value / has_unit, dict / grid / str length, date year/month/day, time hour/minutes/seconds/millis): the component of the '
@@ -323,7 +323,7 @@ PROPS = {
                     'remove on the sequence the handle wraps, return TRUE exactly in those cases, and on every failure (wrong kind, null entry, '
                     'index out of range) return the sentinel and leave the handle unchanged. Each call is verified for every handle state, so '
                     'any finite sequence of these calls is covered by induction.'),
-        not_decided=('R10 assumes handles are live and unaliased (the ownership protocol of C18) and that a mutated handle is non-null; that the error message is retrievable through last_error_message (thread-local); make_xstr, the grid constructors, get_dict_keys and filter_match_all_grid (iterator adapters), the date / time / timestamp constructors (chrono), the two destroy functions and last_error_message -- 14 of the 91 extern "C" functions. chrono accessors, the Rust codecs and the filter evaluator appear as uninterpreted functions (distinct names for distinct functions): the contracts decide that the C function calls the right Rust operation on the right arguments and reports its outcome by the documented sentinel.'),
+        not_decided=('R10 assumes handles are live and unaliased (the ownership protocol of C18) and that a mutated handle is non-null; that the error message is retrievable through last_error_message (thread-local); make_xstr, the grid constructors, get_dict_keys and filter_match_all_grid (iterator adapters), the two timestamp constructors (iterator adapters over chrono values), the two destroy functions and last_error_message -- 11 of the 91 extern "C" functions. chrono accessors, the Rust codecs and the filter evaluator appear as uninterpreted functions (distinct names for distinct functions): the contracts decide that the C function calls the right Rust operation on the right arguments and reports its outcome by the documented sentinel.'),
     ),
     'C11': dict(
         title='Re-encoding is stable; stream decoding equals buffer decoding',
